@@ -1,6 +1,7 @@
 import KyupyVerif.Proofs.WaveIOOrder
 import KyupyVerif.Proofs.MapSound
 import KyupyVerif.Model.LevelMem
+import KyupyVerif.Proofs.MemMapSpec
 /-! A level under an ARBITRARY thread order, on the REAL kind of table: several rows of one level may write the scratch slot
 (`tmp_idx`: every gate with an unconnected output, sim.py:198), so the threads of a level do NOT commute on the scratch
 regions — but they do everywhere else, and the accumulators agree.
@@ -386,6 +387,35 @@ theorem getD_op_of_map {ops : List AOp} {rows : List OpRow} (h : ops.map (·.op)
   rw [List.length_map] at hi
   rw [List.getElem?_map, List.getD_eq_getElem?_getD, List.getElem?_eq_getElem hi]
   rfl
+
+/-- for a well-formed `level_starts` (begins with 0, strictly increasing, inside the program) every level
+    `(level_starts[i], level_stops[i])` is one level of the table and ends inside the program -/
+theorem oneLevel_of_startsOK (p : MapIn) (h : StartsOK p.starts p.ops.length) (i : Nat) (hi : i < p.starts.length) :
+    p.oneLevelB (p.starts[i]) (p.starts.getD (i + 1) p.ops.length) = true ∧
+    p.starts.getD (i + 1) p.ops.length ≤ p.ops.length := by
+  obtain ⟨_, hpw, hle⟩ := h
+  have hmono := List.pairwise_iff_getElem.mp hpw
+  constructor
+  · apply oneLevelB_of_gap
+    intro t ht
+    obtain ⟨j, hj, rfl⟩ := List.getElem_of_mem ht
+    by_cases hji : j ≤ i
+    · left
+      rcases Nat.lt_or_eq_of_le hji with h' | h'
+      · exact Nat.le_of_lt (hmono j i hj hi h')
+      · subst h'; exact Nat.le_refl _
+    · right
+      have h1 : i + 1 < p.starts.length := by omega
+      rw [List.getD_eq_getElem?_getD, List.getElem?_eq_getElem h1, Option.getD_some]
+      rcases Nat.lt_or_eq_of_le (show i + 1 ≤ j by omega) with h' | h'
+      · exact Nat.le_of_lt (hmono (i + 1) j h1 hj h')
+      · subst h'; exact Nat.le_refl _
+  · rw [List.getD_eq_getElem?_getD]
+    by_cases h1 : i + 1 < p.starts.length
+    · rw [List.getElem?_eq_getElem h1, Option.getD_some]
+      exact hle _ (List.getElem_mem h1)
+    · rw [List.getElem?_eq_none (by omega), Option.getD_none]
+      exact Nat.le_refl _
 
 /-- **a level of an ACCEPTED table under an arbitrary thread order** (see `C07.level_threads_any_order`) -/
 theorem level_any_order_of_check (p : MapIn) (hc : p.check = none) (hmin : 2 ≤ p.capsMin)
